@@ -12,7 +12,7 @@ import (
 func init() {
 	register("C20", &ruleSet{
 		run:    runC20,
-		floors: map[string]int{"O1": 8, "O2": 4, "O3": 8, "O4": 8, "O5": 6},
+		floors: map[string]int{"O1": 8, "O2": 5, "O3": 8, "O4": 8, "O5": 10},
 		explain: "Decides structurally: (O1) CommonMetricSampler.Sample emits, on every path, the rtt parameter once to the listener registered under the RTT metric, the " +
 			"in-flight parameter once to the one registered under the in-flight metric, and 1 to the drop counter if and only if the drop flag's true edge was taken; every " +
 			"limit implementation owning a sampler calls Sample exactly once on every OnSample path with its own three parameters; (O2) every strategy emission carries the " +
@@ -37,6 +37,7 @@ func runC20(p *Prog, l *Ledger) {
 	l.NotCovered = []string{"units (go-metrics timer receives nanoseconds scaled as milliseconds)", "numeric equality of gauge and enforced value at poll time under concurrency", "backend behaviour"}
 
 	c20Sample(p, l)
+	c20WindowInFlight(p, l)
 	c20StrategyEmissions(p, l)
 	c20Gauges(p, l)
 	c20Registries(p, l)
@@ -915,6 +916,30 @@ func c20Lifecycle(p *Prog, l *Ledger, locks *LockInfo, nt *types.Named) {
 		})
 		l.Check(len(bad) == 0 && n > 0, "O5", p.Key(stop), p.FuncPos(stop), fmt.Sprintf("%d paths; on the started edge: one stop signal, flag cleared, poller awaited outside the poller's mutex", n), "Stop does not terminate the poller idempotently and safely", bad...)
 	}
+	// ---- Start / Stop touch nothing but the life-cycle state
+	for _, fn := range []*ssa.Function{start, stop} {
+		var bad []string
+		for _, a := range p.Accesses(fn) {
+			if a.Write && !sameField(a.Field, flagF) && types.Identical(a.Field.Type, nt) {
+				bad = append(bad, fmt.Sprintf("%s: %s modifies %s", p.At(a.Instr), fn.Name(), a.Field.Name))
+			}
+		}
+		allInstrs(fn, func(ins ssa.Instruction) {
+			call, ok := ins.(*ssa.Call)
+			if !ok {
+				return
+			}
+			c := p.CallOf(call)
+			if c.Recv == nil {
+				return
+			}
+			if fr, _, ok := loadedField(strip(c.Recv, false)); ok && types.Identical(fr.Type, nt) && !isSyncOrAtomicNamed(c.Recv.Type()) {
+				bad = append(bad, fmt.Sprintf("%s: %s calls %s on the backend / registered state", p.At(ins), fn.Name(), c.Name))
+			}
+		})
+		l.Check(len(bad) == 0, "O5", p.Key(fn)+"/lifecycle-only", p.FuncPos(fn), "touches only the started flag, the stop signal and the wait group", "starting / stopping the poller disturbs the registered metrics: samples emitted afterwards are lost", bad...)
+	}
+
 	// ---- poll loop
 	if runFn == nil {
 		l.Bad("O5", tk+"/poll-loop", "", "cannot find the poll loop (a select) reachable from the goroutine Start spawns")
@@ -1003,4 +1028,73 @@ func derefOrSelf(t types.Type) types.Type {
 		return pt.Elem()
 	}
 	return t
+}
+
+// c20WindowInFlight: the in-flight value a capacity-owning listener records into the sample window is the gauge value
+// returned by the increment at admission: the listener field it is read from is written only where the listener is
+// built, with the result of that increment.
+func c20WindowInFlight(p *Prog, l *Ledger) {
+	w := p.Named("measurements", "ImmutableSampleWindow")
+	tok := p.coreNamed("StrategyToken")
+	for _, nt := range p.Implementers(p.coreIface("Listener")) {
+		if len(fieldsOfType(nt, tok)) != 1 || !strings.HasPrefix(p.TypeKey(nt), "limiter.") {
+			continue
+		}
+		key := p.TypeKey(nt) + "/window-inflight"
+		var src *FieldRef
+		var bad []string
+		nrec := 0
+		for _, f := range p.Funcs {
+			if !p.InPkg(f, "limiter") {
+				continue
+			}
+			allInstrs(f, func(ins ssa.Instruction) {
+				call, ok := ins.(*ssa.Call)
+				if !ok {
+					return
+				}
+				c := p.CallOf(call)
+				if c.Static == nil || c.Recv == nil || !strings.HasPrefix(c.Static.Name(), "Add") {
+					return
+				}
+				if d := derefNamed(c.Recv.Type()); d == nil || w == nil || !types.Identical(d, w) {
+					return
+				}
+				nrec++
+				arg := strip(c.Args[len(c.Args)-1], true)
+				if cv, ok := arg.(*ssa.Convert); ok {
+					arg = strip(cv.X, true)
+				}
+				fr, _, ok := loadedField(arg)
+				if !ok || !types.Identical(fr.Type, nt) {
+					bad = append(bad, fmt.Sprintf("%s: the in-flight value recorded into the window is not the listener's admission count: %s", p.At(ins), valueString(arg)))
+					return
+				}
+				f2 := fr
+				src = &f2
+			})
+		}
+		if src != nil {
+			for _, f := range p.Funcs {
+				for _, a := range p.Accesses(f) {
+					if !a.Write || !sameField(a.Field, *src) {
+						continue
+					}
+					if !freshBase(a) {
+						bad = append(bad, fmt.Sprintf("%s: the admission in-flight count of a listener is modified after admission (%s)", p.At(a.Instr), p.Key(f)))
+						continue
+					}
+					if d, ok := p.DeltaOf(valueInstr(strip(a.Val, true))); !ok || d.By != 1 {
+						bad = append(bad, fmt.Sprintf("%s: the listener's in-flight count is not the result of the gauge increment at admission: %s", p.At(a.Instr), valueString(a.Val)))
+					}
+				}
+			}
+		}
+		l.Check(len(bad) == 0 && nrec > 0, "O2", key, "", fmt.Sprintf("%d window recordings carry the gauge value returned by the increment at admission; the field is never rewritten", nrec), "the in-flight sample does not equal the in-flight count at the admission decision", bad...)
+	}
+}
+
+func valueInstr(v ssa.Value) ssa.Instruction {
+	ins, _ := v.(ssa.Instruction)
+	return ins
 }
